@@ -21,6 +21,7 @@ RULE = ("object kinds {TimeAxis, FrequencyAxis, ValueAxis, DFunction, Operator, 
         "MatrixData} x {with axis, without}. distinct = (kind, save context, load context) resp. (carrier, format, dtype, axis); non-trivial iff save and load "
         "context differ or a non-trivial context is involved (objects) resp. the array has more than one distinct value (data).")
 RULE = RULE + " Round-6 workloads: directories are filled by several objects in turn with automatic tags, including objects loaded from the same directory."
+RULE = RULE + " Round-7 workloads: a loaded object is modified in place and the directory loaded again."
 ASSUMPTIONS = ["basis-managed objects are read (hence transformed) inside a basis context before they are saved there: the transformation is lazy",
                "text formats are compared to 1e-15 relative, binary formats exactly; a real axis stored next to complex data may come back as complex numbers with zero imaginary part",
                "objects saved inside a basis context after having been transformed there: see known finding"]
